@@ -99,6 +99,9 @@ def cases(shard, rnd):
         for b in mp.bytes:
             if b:
                 yield {'kind': 'body', 'body': b, 'ch': gf.rchannel(rnd)}
+        for n_ in (2, 8, 23, 24, 25, 40, 64, 100, 256, 300):
+            yield {'kind': 'table', 'wrap': 'table', 'legacy': False,
+                   'v': gv.prefix_family_table(rnd, n_)}
         # buffers whose len() is not their byte count / that are not flat
         for buf in gv.buffer_bodies(rnd):
             yield {'kind': 'body', 'body': buf, 'ch': gf.rchannel(rnd),
